@@ -66,6 +66,8 @@ def rule_prnorm(ctx):
             if c.callee != "util.f_measure" or len(c.args) < 2:
                 continue
             P, Rc = c.args[0], c.args[1]
+            if P is Rc and is_lit(P):
+                continue  # util.f_measure(0, 0) on a degenerate exit: one literal for both sides has no orientation
             verdict = None
             why = ""
             pa = [x for x in resolve_ite_free(P) if not is_lit(x)]
